@@ -68,7 +68,7 @@ func regName(a uint16) string {
 }
 
 func run(c *rig.Ctx) {
-	c.Require("histories", "ops", "block_reads", "power_offs", "power_ons", "writes_while_off", "wave_reads_compared", "wave_writes_ch3_off")
+	c.Require("histories", "ops", "block_reads", "power_offs", "power_ons", "writes_while_off", "wave_reads_compared", "wave_writes_ch3_off", "dma_starts_during_histories")
 	nh := c.N(1600, 20000)
 	c.Part("histories", nh, func(i int64, r *rig.Rng) {
 		m := rig.MustNew(rig.BlankROM(0, 0, 0), rig.Opts{})
@@ -140,6 +140,9 @@ func run(c *rig.Ctx) {
 		}
 		nops := 300
 		for k := 0; k < nops; k++ {
+			if k%16 == 15 {
+				rig.SiblingRun(45) // a neighbour machine keeps storing to its own sound registers and wave RAM
+			}
 			switch r.Intn(10) {
 			case 0: // power toggle / redundant power write
 				v := r.U8()
@@ -179,8 +182,15 @@ func run(c *rig.Ctx) {
 				n := r.PickInt([]int{0, 1, 7, 100, 2048, 5000})
 				for t := 0; t < n; t++ {
 					m.Audio.EndMachineCycle()
+					m.Mem.EndMachineCycle()
 				}
 				log(fmt.Sprintf("+%d", n))
+				// an OAM DMA transfer now and then: the sound registers are not its business
+				if r.Chance(1, 4) {
+					m.Mem.Write(0xff46, uint8(0xc0+r.Intn(0x20)))
+					log("DMA")
+					c.Count("dma_starts_during_histories", 1)
+				}
 			default: // register write
 				a := uint16(0xff10 + r.Intn(0x16))
 				v := r.U8()
